@@ -53,8 +53,10 @@ theorem exec_totSent {w w' : World} {g : Ghost} {blk : Block} {op : Op} {o : Out
     obtain ⟨_, _, _, _, _, ht⟩ := reduceBalance_spec hred
     exact ht k
   cases op with
-  | connect id v cv ord =>
-    have f := exec_plain_frame h (Or.inl ⟨id, v, cv, ord, rfl⟩); simp only [Ghost.update, f.1]
+  | connect id v cv ord peer =>
+    have f := exec_plain_frame h (Or.inl ⟨id, v, cv, ord, peer, rfl⟩); simp only [Ghost.update, f.1]
+  | chanOpen v cv ord => obtain ⟨rfl, rfl⟩ := exec_chanOpen h; simp only [Ghost.update]
+  | chanClose id => exact (exec_chanClose h).elim
   | allow snd c gg =>
     have f := exec_plain_frame h (Or.inr (Or.inl ⟨snd, c, gg, rfl⟩)); simp only [Ghost.update, f.1]
   | updateAdmin snd a =>
